@@ -203,6 +203,7 @@ def run(rep, tier):
     separation_footprint_correspondence(rep, drv, r)
     iraf_separation_correspondence(rep, drv, r)
     xycoords_pixel_correspondence(rep, drv, r)
+    centroid_within_kernel_probe(rep, r, 60 * scale)
     kernel_orientation_probe(rep, r, 12 * scale)
     xycoords_jitter_probe(rep, r, 4 * scale)
 
@@ -603,6 +604,38 @@ def xycoords_pixel_correspondence(rep, drv, r):
         if peak is None or abs(peak - exp) > 1e-9 * max(1.0, exp):
             rep.violation('xycoords-pixel', f'DAOStarFinder(xycoords=[({px}, {py})]): peak = {peak}, the value of the pixel ({mx}, {my}) that ceil(x - 0.5) names is {exp}',
                           {'xycoords': [px, py], 'pixel': [mx, my]})
+
+
+def centroid_within_kernel_probe(rep, r, n):
+    """(S) on background-subtracted noise (mixed-sign pixels, faint peaks) every source DAOStarFinder returns is measured ON a detected
+    peak: its centroid lies within half a kernel size of the peak pixel its cut-out is centred on (the marginal fit falls back to the first
+    moment, and to the peak pixel itself when that leaves the cut-out too - seed C14-r10 dropped the second test)"""
+    from photutils.detection import DAOStarFinder
+    for k in range(n):
+        rs = np.random.RandomState(r.randrange(2 ** 31))
+        ny, nx = r.choice([(25, 25), (21, 33), (11, 11)])
+        img = np.round(rs.normal(0, 1.5, (ny, nx)) * 4) / 4
+        f = DAOStarFinder(threshold=r.choice([1.0, 0.5, 2.0]), fwhm=r.choice([2.0, 2.5, 3.0]), sharplo=-100, sharphi=100, roundlo=-100, roundhi=100)
+        with warnings.catch_warnings():
+            warnings.simplefilter('ignore')
+            try:
+                raw = f._get_raw_catalog(img)
+            except Exception as e:                              # noqa: BLE001
+                rep.violation(f'starfinder-raises:DAOStarFinder:noise:{type(e).__name__}', f'DAOStarFinder raised {e!r}', {'data': img.tolist()})
+                continue
+        rep.case(('noise-centroid', img.tobytes()), raw is not None, kind='DAOStarFinder:noise-frame')
+        rep.probe_only += 1
+        if raw is None:
+            continue
+        xy = np.asarray(raw.xypos, float)
+        cx, cy = np.asarray(raw.xcentroid, float), np.asarray(raw.ycentroid, float)
+        hx, hy = f.kernel.xradius + 0.5, f.kernel.yradius + 0.5
+        with np.errstate(invalid='ignore'):
+            off = np.flatnonzero((np.abs(cx - xy[:, 0]) > hx) | (np.abs(cy - xy[:, 1]) > hy))
+        if off.size:
+            j = int(off[0])
+            rep.violation('starfinder-centroid-outside-kernel:DAOStarFinder', f'DAOStarFinder on a noise frame: the source measured on the peak at {tuple(xy[j])} is reported at '
+                          f'({cx[j]}, {cy[j]}), more than half a kernel ({hx}, {hy}) away', {'data': img.tolist(), 'threshold': float(f.threshold), 'fwhm': float(f.fwhm)})
 
 
 def exclude_border_probe(rep, r, n):
